@@ -70,6 +70,29 @@ def run(tools, seed, tier):
             ids.append(o["id"])
         pairs, errors = C.eval_shards("l1", HEADER, items, "l1_verdicts cases")
         verdicts = dict(pairs)
+        # a worker that died or timed out under load is not an observation of the code: histories on which
+        # the implementation "crashed" while the model terminates run again, a few at a time with a long limit
+        again = [o for o in obs if verdicts.get(o["id"]) == "DIFF-impl-crash" and o.get("history")]
+        if again:
+            root2 = C.scratch_dir("l1b")
+            try:
+                hp = os.path.join(root2, "again.json")
+                json.dump([o["history"] for o in again], open(hp, "w"))
+                op2 = os.path.join(root2, "obs.jsonl")
+                p = C.sh([tools.vh, "l1", "-only", hp, "-root", os.path.join(root2, "mod"), "-out", op2,
+                          "-shards", "2", "-timeout", "300s"], timeout=3600)
+                if p.returncode == 0:
+                    redo = {}
+                    for l in open(op2):
+                        o2 = json.loads(l)
+                        redo[o2["id"]] = o2
+                    obs = [redo.get(o["id"], o) if o["id"] in redo else o for o in obs]
+                    items2 = ["(%s, %s)" % (o["case"], o["obs"]) for o in redo.values() if o.get("case") and o.get("obs")]
+                    pairs2, errors2 = C.eval_shards("l1b", HEADER, items2, "l1_verdicts cases")
+                    verdicts.update(dict(pairs2))
+                    errors += errors2
+            finally:
+                shutil.rmtree(root2, ignore_errors=True)
         hist = []
         kinds = collections.Counter()
         stats = collections.Counter()
